@@ -7,6 +7,7 @@ import Pdlv.JavaStruct
 import Pdlv.Lemmas.JavaEnumArrays
 import Pdlv.Lemmas.Local
 import Pdlv.Lemmas.Exact
+import Pdlv.Lemmas.JavaSerChild
 
 namespace Pdlv
 namespace Java
@@ -181,6 +182,66 @@ theorem decode_same3 (c : Cfg) (nm : String) (items : Items) (hw : decWfItems3 i
       cases sb.payload <;> rfl
     · simp only [hre, Bool.false_eq_true, ↓reduceIte] at h2
       cases h2
+
+/-! ### the serializer -/
+
+/-- a struct-typed field: `buf.put(x.toBytes())` writes the reference encoding of the struct value -/
+theorem struct_ref (en : Endian) (snm : String) (sitems : Items) (hw : encWfItems sitems = true) (x : Value) (bs : Bytes)
+    (h : Pdlv.encBody { e := en, mode := .ideal } (.root snm sitems) x = .ok bs) :
+    encStructS en (.root snm sitems) x = .ok bs := by
+  simp only [Pdlv.encBody] at h
+  simp only [encStructS]
+  split at h
+  · cases h
+  · rename_i p hp
+    simp only [hp, encItemsS_eq en sitems p x sitems hw]
+    exact items_refE en sitems p x sitems bs hw h
+
+theorem items_refE3 (en : Endian) (all : Items) (p : Bytes) (v : Value) : ∀ (is : Items) (bs : Bytes),
+    encWfItems3 is = true → Pdlv.encItems { e := en, mode := .ideal } all (.ok p) p.length v is = .ok bs →
+      encItemsS en all p v is = .ok bs
+  | .nil, bs, _, h => by simpa [Pdlv.encItems, encItemsS] using h
+  | .cons i r, bs, hw, h => by
+    simp only [Pdlv.encItems] at h
+    obtain ⟨a, ha, h2⟩ := bind_ok _ _ _ h
+    obtain ⟨b, hb, h3⟩ := bind_ok _ _ _ h2
+    have single : ∀ (j : Item), encWfItems (.cons j .nil) = true → Pdlv.encItem { e := en, mode := .ideal } all (.ok p) p.length v j = .ok a →
+        Java.encItems en all p v (.cons j .nil) = .ok a := by
+      intro j hj hja
+      have := items_refE en all p v (.cons j .nil) a hj (by simp [Pdlv.encItems, hja, Outcome.bind])
+      exact this
+    cases i with
+    | typedef id ty sb =>
+      cases ty with
+      | struct nm body =>
+        cases body with
+        | root snm sitems =>
+          simp only [encWfItems3, Bool.and_eq_true] at hw
+          simp only [Pdlv.encItem] at ha
+          cases hg : v.get? id with
+          | none => simp [hg] at ha
+          | some x =>
+            simp only [hg, Pdlv.encTy] at ha
+            simp only [encItemsS, encItemS, hg, encTyS, struct_ref en snm sitems hw.1 x a ha, Outcome.bind,
+              items_refE3 en all p v r b hw.2 hb]
+            exact h3
+        | derived a1 a2 a3 a4 a5 => simp [encWfItems3] at hw
+      | scalar w => simp [encWfItems3] at hw
+      | enumTy a1 a2 => simp [encWfItems3] at hw
+      | custom a1 a2 => simp [encWfItems3] at hw
+    | optional a1 a2 a3 a4 => simp [encWfItems3] at hw
+    | chunk fs =>
+      simp only [encWfItems3, Bool.and_eq_true] at hw
+      simp only [encItemsS, encItemS, single (.chunk fs) hw.1 ha, Outcome.bind, items_refE3 en all p v r b hw.2 hb]
+      exact h3
+    | payload m =>
+      simp only [encWfItems3, Bool.and_eq_true] at hw
+      simp only [encItemsS, encItemS, single (.payload m) hw.1 ha, Outcome.bind, items_refE3 en all p v r b hw.2 hb]
+      exact h3
+    | array id el ew sh pad =>
+      simp only [encWfItems3, Bool.and_eq_true] at hw
+      simp only [encItemsS, encItemS, single (.array id el ew sh pad) hw.1 ha, Outcome.bind, items_refE3 en all p v r b hw.2 hb]
+      exact h3
 
 end Java
 end Pdlv
